@@ -44,7 +44,15 @@ func genC15Sys(t *rapid.T) c15sCase {
 		case "restart":
 			c.Ops = append(c.Ops, op{K: "restart"})
 		case "sched":
-			c.Ops = append(c.Ops, op{K: "sched", Loc: loc, Id: id, N: rapid.SampledFrom([]int64{1e9, 2e9, 3500e6}).Draw(t, l+".d"), B: rapid.IntRange(0, 3).Draw(t, l+".recurring") == 0})
+			x := op{K: "sched", Loc: loc, Id: id, N: rapid.SampledFrom([]int64{1e9, 2e9, 3500e6}).Draw(t, l+".d"), B: rapid.IntRange(0, 3).Draw(t, l+".recurring") == 0}
+			if rapid.IntRange(0, 4).Draw(t, l+".bounded") == 0 {
+				// a cron expression with exactly one occurrence, N from
+				// now (rounded up to a full second): afterwards the
+				// schedule has run out, but the rule is still there
+				x.B = false
+				x.Doc = M{"bounded": true}
+			}
+			c.Ops = append(c.Ops, x)
 		case "rem":
 			c.Ops = append(c.Ops, op{K: "rem", Loc: loc, Id: id})
 		case "rule":
@@ -66,6 +74,7 @@ type c15sGen struct {
 	firstDue     time.Time
 	restarted    bool
 	recurring    bool
+	bounded      bool // a cron expression with exactly one occurrence
 	due          time.Time
 	removedAt    time.Time
 }
@@ -172,6 +181,14 @@ func runC15Sys(c c15sCase) *vlib.Outcome {
 				g.recurring = true
 				g.due = now.Truncate(2 * time.Second).Add(2 * time.Second)
 			}
+			if b, _ := x.Doc["bounded"].(bool); b {
+				at := now.Add(time.Duration(x.N)).Truncate(time.Second).Add(time.Second).UTC()
+				sched = fmt.Sprintf("%d %d %d %d %d * %d", at.Second(), at.Minute(), at.Hour(), at.Day(), int(at.Month()), at.Year())
+				g.bounded = true
+				g.recurring = true // (the rule is not deleted when it has run)
+				g.due = at
+				o.Label("bounded-schedule")
+			}
 			rule := M{"schedule": sched, "action": M{"code": fmt.Sprintf("Env.record('%s' + (location == Env.Location ? '' : '!location=' + location) + (ruleId == '%s' ? '' : '!ruleId=' + ruleId), Env.Location); Env.AddFact('', {fired: '%s'}); 'ok'", tag, x.Id, tag)}}
 			js, _ := json.Marshal(rule)
 			if _, err := s.AddRule(clientCtx(), x.Loc, x.Id, string(js)); err != nil {
@@ -228,7 +245,11 @@ func runC15Sys(c c15sCase) *vlib.Outcome {
 			}
 			at := time.Now()
 			for _, g := range current {
-				if g.recurring {
+				if g.bounded {
+					// (its one occurrence is where it is; if that has
+					// passed, nothing is left to run - and the location
+					// loads all the same)
+				} else if g.recurring {
 					g.due = at.Truncate(2 * time.Second).Add(2 * time.Second)
 				} else {
 					// a relative schedule starts over when it is
@@ -272,7 +293,13 @@ func runC15Sys(c c15sCase) *vlib.Outcome {
 		if !g.recurring && n > 1 {
 			o.Fail("ONESHOT_RULE_RAN_TWICE", "one-shot rule %s ran %d times; %s", g.tag, n, hist())
 		}
+		if g.bounded && n > 1 {
+			o.Fail("BOUNDED_SCHEDULE_RAN_TWICE", "rule %s has a schedule with one occurrence but ran %d times; %s", g.tag, n, hist())
+		}
 		live := g.removedAt.IsZero() || g.removedAt.After(g.due.Add(time.Second))
+		if g.bounded && g.restarted {
+			live = false // (a restart may have fallen on the occurrence)
+		}
 		if live && n == 0 && g.due.Add(time.Second).Before(end) {
 			o.Fail("SCHEDULED_RULE_DID_NOT_RUN", "rule %s (location %s id %s) was due at %s and still existed a second later but never ran; %s", g.tag, g.loc, g.id, rel(g.due), hist())
 		}
